@@ -75,6 +75,24 @@ func decorate(r *rand.Rand, nodes []*newick.Node) {
 			n.Children = pick(r, [][]*newick.Node{{}, make([]*newick.Node, 0, 4), append([]*newick.Node{{Name: "removed"}}, nil)[:0]})
 		}
 	}
+	// Names that ARE numbers: an inner node labelled with its support value, a leaf numbered 1, 2, 3 … — and, the
+	// coincidence that real trees have all the time, a label spelled exactly like a branch length of the same tree
+	// (its own, its neighbour's). A token is a name or a length by its POSITION, never by its text.
+	if r.IntN(4) == 0 {
+		for j := 0; j < 1+r.IntN(3); j++ {
+			n := nodes[r.IntN(len(nodes))]
+			src := nodes[r.IntN(len(nodes))]
+			if r.IntN(2) == 0 {
+				src = n
+			}
+			if d := src.Distance; d == d && !math.IsInf(d, 0) {
+				n.Name = fmt.Sprint(d)
+				if r.IntN(3) == 0 && d == 0 {
+					n.Name = pick(r, []string{"0", "1", "0.95", "100", "1e-05"})
+				}
+			}
+		}
+	}
 	// Near-duplicates within one tree (and, as the base names come from a short list, within one stream): the same
 	// long name with blanks, with underscores in their place, in the other case, with a quote in it, with a blank
 	// at its end — names that the format's own escaping rules map close to each other, and that a reader which
